@@ -1116,6 +1116,9 @@ func ParseByteRange(byteRange []byte, contentLength int) (startPos, endPos int, 
 		if err != nil {
 			return 0, 0, err
 		}
+		if v == 0 || contentLength == 0 {
+			return 0, 0, fmt.Errorf("unsatisfiable suffix byte range %q for content length %d", byteRange, contentLength)
+		}
 		startPos := contentLength - v
 		if startPos < 0 {
 			startPos = 0
